@@ -151,7 +151,7 @@ package rag
 
 //@ func (*DocumentChunker) createListChunk results (c)
 //@   property C12
-//@   flags noalias, nosafety, recvreadonly
+//@   flags noalias, recvreadonly
 //@   fresh SectionPath
 //@   ensures index: c.Metadata.ChunkIndex == old(*chunkIndex) && *chunkIndex == old(*chunkIndex) + 1
 //@   ensures page: c.Metadata.PageStart == pageNum && c.Metadata.PageEnd == pageNum
@@ -174,7 +174,6 @@ package rag
 // followed by the new heading.  lv (ghost) = levels of the current entries (strictly increasing).
 //@ func updateSectionPath
 //@   property C12
-//@   flags nosafety
 //@   ghost lv []int
 //@   let wf = len(lv) == len(*sectionPath) && newLevel >= 1 && (forall j int :: {lv[j]} 0 <= j && j < len(lv) ==> lv[j] >= 1 && (j + 1 < len(lv) ==> lv[j] < lv[j+1])) && (len(lv) > 0 ==> lv[len(lv)-1] == *currentLevel) && (len(lv) == 0 ==> *currentLevel == 0)
 //@   ensures level: *currentLevel == newLevel
@@ -194,7 +193,7 @@ package rag
 // size configuration - not by comparing bytes with some other limit)
 //@ func (*DocumentChunker) textBlockToChunks results (res)
 //@   property C12, C13
-//@   flags nosafety, recvreadonly
+//@   flags recvreadonly
 //@   callsite createTextChunk#1(b) requires unsplit_only_within_the_hard_maximum: !sizeCalc.IsAboveMax(block.text) && sameseq(b.text, block.text)
 //@   requires valid_size_config: dc.sizeConfig.Max.Value >= 0 && dc.sizeConfig.TokensPerChar > 0.0
 //@   ensures indices: *chunkIndex == old(*chunkIndex) + len(res) && forall k int :: {res[k]} 0 <= k && k < len(res) ==> res[k].Metadata.ChunkIndex == old(*chunkIndex) + k && res[k].Metadata.PageStart == block.pageNum && res[k].Metadata.PageEnd == block.pageNum
@@ -204,7 +203,7 @@ package rag
 // one page: consecutive indices in document order, every chunk reports this page
 //@ func (*DocumentChunker) chunkPage results (res)
 //@   property C12
-//@   flags nosafety, recvreadonly
+//@   flags recvreadonly
 //@   requires valid_size_config: dc.sizeConfig.Max.Value >= 0 && dc.sizeConfig.TokensPerChar > 0.0
 //@   ensures indices: *chunkIndex == old(*chunkIndex) + len(res) && forall k int :: {res[k]} 0 <= k && k < len(res) ==> res[k].Metadata.ChunkIndex == old(*chunkIndex) + k
 //@   ensures pages: !isnil(page) ==> forall k int :: {res[k]} 0 <= k && k < len(res) ==> res[k].Metadata.PageStart == page.Number && res[k].Metadata.PageEnd == page.Number
@@ -215,7 +214,7 @@ package rag
 // whole document: indices are 0..n-1 in order and every chunk reports n as the total
 //@ func (*DocumentChunker) ChunkDocument results (res)
 //@   property C12
-//@   flags nosafety, recvreadonly
+//@   flags recvreadonly
 //@   requires valid_size_config: dc.sizeConfig.Max.Value >= 0 && dc.sizeConfig.TokensPerChar > 0.0
 //@   ensures indices: !isnil(doc) ==> forall k int :: {res.Chunks[k]} 0 <= k && k < len(res.Chunks) ==> res.Chunks[k].Metadata.ChunkIndex == k && res.Chunks[k].Metadata.TotalChunks == len(res.Chunks)
 //@   loop 0:
@@ -251,7 +250,7 @@ package rag
 // stops early, keys are only ever added, every collected key is emitted)
 //@ func (*Exporter) collectCSVColumns results (res)
 //@   property C14
-//@   flags nosafety, recvreadonly
+//@   flags recvreadonly
 //@   loop 0:
 //@     exhaustive
 //@     step keys_are_only_added: forall k string :: {has(metadataKeys, k)} has(prev(metadataKeys), k) ==> has(metadataKeys, k)
@@ -302,7 +301,6 @@ package rag
 // the overlap is cut to the configured maximum without splitting a character
 //@ func (*OverlapGenerator) truncateOverlap results (r)
 //@   property C13
-//@   flags nosafety
 //@   requires og.config.Size >= 0
 //@   callsite generateCharacterOverlap(t) requires sameseq(t, cutAtRuneBoundary(overlap, og.config.MaxOverlap))
 //@   ensures short_overlap_unchanged: len(overlap) <= og.config.MaxOverlap ==> sameseq(r, overlap)
@@ -314,7 +312,6 @@ package rag
 // already carries chunk i-2's overlap.
 //@ func ApplyOverlapToChunks results (res)
 //@   property C13
-//@   flags nosafety
 //@   callsite GenerateOverlap(t) requires sameseq(t, old(chunks)[i-1].Text)
 //@   ensures one_result_per_chunk: len(res) == len(chunks)
 //@   loop 0:
@@ -352,20 +349,20 @@ package rag
 // with the one column list
 //@ func (*Exporter) exportCSV results (err)
 //@   property C14
-//@   flags recvreadonly, nosafety
+//@   flags recvreadonly
 //@   callsite Write#1(rec) requires sameseq(rec, columns)
 //@   callsite Write#2(rec) requires sameseq(rec, e.chunkToCSVRow(e.prepareChunkForExport(chunks[i], i), columns))
 
 // JSON Lines: exactly one Encode per chunk, in order, of that chunk's record
 //@ func (*Exporter) exportJSONL results (err)
 //@   property C14
-//@   flags recvreadonly, nosafety
+//@   flags recvreadonly
 //@   callsite Encode(v) requires v == e.prepareChunkForExport(chunks[i], i)
 
 // JSON: one array with the records of all chunks in order
 //@ func (*Exporter) exportJSON results (err)
 //@   property C14
-//@   flags recvreadonly, nosafety
+//@   flags recvreadonly
 //@   callsite Encode(v) requires len(v) == len(chunks) && forall k int :: {v[k]} 0 <= k && k < len(chunks) ==> v[k] == e.prepareChunkForExport(chunks[k], k)
 //@   loop 0:
 //@     invariant len(exported) == len(chunks) && forall k int :: {exported[k]} 0 <= k && k < $i ==> exported[k] == e.prepareChunkForExport(chunks[k], k)
@@ -373,13 +370,11 @@ package rag
 // streaming: one record per call, the chunk's own record
 //@ func (*StreamExporter) WriteChunk results (err)
 //@   property C14
-//@   flags nosafety
 //@   callsite Encode(v) requires v == exporter.prepareChunkForExport(chunk, index)
 
 // vector-database records: one per chunk, in order, with the chunk's id and text
 //@ func (*EmbeddingExporter) PrepareForVectorDB results (records)
 //@   property C14
-//@   flags nosafety
 //@   ensures one_record_per_chunk_in_order: len(records) == len(chunks) && forall k int :: {records[k]} 0 <= k && k < len(chunks) ==> records[k].ID == chunks[k].ID && records[k].Text == chunks[k].Text
 //@   loop 0:
 //@     invariant len(records) == len(chunks) && forall k int :: {records[k]} 0 <= k && k < $i ==> records[k].ID == chunks[k].ID && records[k].Text == chunks[k].Text
@@ -431,12 +426,11 @@ package rag
 // ---- C12 (layout-based chunker): every chunk reports the final number of chunks; constructors stamp the index ----
 //@ func (*Chunker) createChunk results (ch)
 //@   property C12
-//@   flags nosafety, recvreadonly
+//@   flags recvreadonly
 //@   ensures stamped: ch.Metadata.ChunkIndex == index && ch.Metadata.PageStart == section.PageStart && ch.Metadata.PageEnd == section.PageEnd && ch.Metadata.SectionTitle == section.Title && ch.Metadata.DocumentTitle == docTitle && ch.Text == text
 
 //@ func (*Chunker) Chunk results (res, err)
 //@   property C12
-//@   flags nosafety
 //@   ensures nil_document_is_error: isnil(doc) ==> err
 //@   ensures every_chunk_reports_the_total: !err ==> forall k int :: {res.Chunks[k]} 0 <= k && k < len(res.Chunks) ==> res.Chunks[k].Metadata.TotalChunks == len(res.Chunks)
 //@   loop 1:
@@ -446,7 +440,6 @@ package rag
 // (the joining space counts: two sentences of 23 and 17 bytes do not fit a 40-byte piece)
 //@ func (*Chunker) splitBySentences results (res)
 //@   property C13
-//@   flags nosafety
 //@   requires !isnil(c) && !isnil(section) && !isnil(chunkIndex) && c.config.MaxChunkSize >= 0
 //@   callsite createChunk(t) requires fits_or_is_one_sentence: len(t) <= c.config.MaxChunkSize || exists k int :: {sentences[k]} 0 <= k && k < len(sentences) && len(t) == len(sentences[k])
 //@   loop 0:
@@ -465,7 +458,6 @@ package rag
 // them): each block advances the position by the byte length of its text plus the two-byte separator ----
 //@ func (*BoundaryDetector) DetectBoundaries results (res)
 //@   property C13
-//@   flags nosafety
 //@   callsite detectInternalBoundaries(b, pos, idx) requires internal_boundaries_are_offset_by_the_position: pos == position && idx == i
 //@   loop 0:
 //@     step position_advances_by_bytes: position == prev(position) + len(block.Text) + (i < len(blocks) - 1 ? 2 : 0)
@@ -477,3 +469,16 @@ package rag
 //@   property C13
 //@   flags callsites
 //@   callsite countWords(s) requires merged_chunk_within_the_limit: len(s) <= c.config.MaxChunkSize
+
+// ---- C14: every record of the Chroma export carries a metadata map of its own (built for that chunk) ----
+//@ func (*EmbeddingExporter) ExportForChroma
+//@   property C14
+//@   flags frameonly
+//@   fresh Metadatas
+
+// ---- C13: the sentence overlap is assembled from the TEXTS of the last sentences (the positions recorded with them
+// count runes, not bytes: they are never used to cut the text) ----
+//@ func (*OverlapGenerator) generateSentenceOverlap results (res, n)
+//@   property C13
+//@   flags callsites
+//@   callsite WriteString(s) requires pieces_are_separators_or_sentence_texts: s == " " || s == sentences[i].text
